@@ -96,6 +96,12 @@ m("c12-drop-falsy-payload", "C12", G + "nodes.py", "        if self.payload is n
 m("c12-sinks-only-zero-output", "C12", G + "export.py", "        if name not in consumed:\n            sinks.append(nodes[name])", "        if (sink := nodes[name]).is_sink():\n            sinks.append(sink)", "re-introduces the terminal-nodes defect")
 m("c12-eq-skips-payload", "C12", G + "graph.py", "            if node.payload != onode.payload:\n                return False", "            pass", "Graph.__eq__ lenient on payloads (only matters with another defect)")
 m("c12-multi-output-names-lost", "C12", G + "export.py", "    outputs = data.get(\"outputs\", [])", "    outputs = data.get(\"outputs\", [])\n    if len(outputs) > 2:\n        outputs = outputs[:2]", "more than two outputs truncated on read")
+m("c11-fuse-count-not-inherited", "C11", G + "fuse.py", "        if any_fused:\n            self.counter[result] = self.counter[node]\n        else:", "        if not any_fused:", "a fused node forgets how many consumers it has: it is offered for fusion although two nodes read it")
+m("c11-cut-name-ignores-destination", "C11", G + "split.py", "        h = pack(\"n\", hash(self)).hex()", "        h = pack(\"n\", hash((self.source_node, self.source_output))).hex()", "two cut edges leaving the same output share a name")
+m("c11-dedup-keeps-duplicate-sinks", "C11", G + "deduplicate.py", "        new_sinks = set()\n        for sink in sinks:\n            ref = self.__find_node(sink)\n            assert ref is not None\n            new_sinks.add(ref)", "        new_sinks = []\n        for sink in sinks:\n            ref = self.__find_node(sink)\n            assert ref is not None\n            new_sinks.append(ref)", "duplicate sinks survive de-duplication")
+m("c12-outputs-sorted-on-read", "C12", G + "export.py", "    outputs = data.get(\"outputs\", [])", "    outputs = sorted(data.get(\"outputs\", []))", "output lists come back sorted")
+m("c12-cascade-file-dedups", "C12", "src/earthkit/workflows/__init__.py", "        data = serialise(self._graph)", "        data = serialise(deduplicate_nodes(self._graph))", "Cascade.serialise silently merges nodes with equal payload and inputs")
+m("c14-hash-ignores-which-output", "C14", FLUENT, "            f'{payload}{[x.name if isinstance(x, BaseNode) else f\"{x.parent.name}.{x.name}\" for x in inputs]}'", "            f'{payload}{[x.name if isinstance(x, BaseNode) else f\"{x.parent.name}\" for x in inputs]}'", "two nodes reading different outputs of one generator node get the same name")
 # ---- C13 ------------------------------------------------------------------------------------------------
 m("c13-batched-mean-wrong-divisor", "C13", FLUENT, "        ).divide(self.nodes.sizes[dim])\n\n    def std(", "        ).divide(self.nodes.sizes[dim] if self.nodes.sizes[dim] % batch_size == 0 else -(-self.nodes.sizes[dim] // batch_size) * batch_size)\n\n    def std(", "batched mean divides by the padded count when the last batch is short")
 m("c13-expand-index-plus-one", "C13", FLUENT, "            params = [(i, internal_dim, backend_kwargs) for i in range(dim_size)]", "            params = [(min(i + 1, dim_size - 1) if dim_size > 2 else i, internal_dim, backend_kwargs) for i in range(dim_size)]", "expand takes index+1")
